@@ -5,6 +5,16 @@ ROOT = os.path.dirname(os.path.dirname(os.path.abspath(__file__)))
 
 # id -> (level category, technique, level text, level note, design ref)
 CHECKS = {
+ "C10": ("model_checking",
+   "stateless deviation-bounded exploration of the embedder (budget per run_n_steps call, host-service delay) on the real runtime, all executions with <= 2 deviations, differential against the default embedder and a hand model",
+   "For 63 programs (hand-modelled corpus with host calls, readline, runtime errors, final values and Kahn-style task programs, plus the collector and channel families) every execution with at most two departures from the default embedder (budget 1, immediate host service) is run to completion: a departure is one call with budget 0/2/3/5/64/1000 or leaving a pending host call unserviced for 1-3 further calls; uniform budgets 1..16, 64, 1000, MAX are added. Output, emits, final value, error kind and traceback must equal the default execution, which must equal the hand model.",
+   "Bound of 2 deviations only for programs whose default run has <= 30 (quick) / 400 (thorough) calls, 1 otherwise; racing-writer programs are outside the family; u32::MAX budgets only for task-free programs (with a spinning task a huge budget is a multi-minute wait, not a different behaviour).",
+   "DESIGN.md §3 C10"),
+ "C11": ("model_checking",
+   "the C10 deviation-bounded embedder exploration with a status-contract oracle evaluated at every run_n_steps return",
+   "At every run_n_steps return of every explored execution: steps_consumed <= budget; for task-free programs the consumed steps sum to the default run's instruction count; completion or a runtime error is reported when main ends and persists on further calls, an error is never reported as completion; final value, output and the arguments received by host functions of arity 0-3 equal the hand model and the host's return value is what the program observes.",
+   "Same bounds as C10; hand-computed expectations in corpus.rs are the reference model.",
+   "DESIGN.md §3 C11"),
  "C09": ("model_checking",
    "multi-thread product BFS (round-robin mutator steps x collector micro-steps on every green thread's heap, quarantine on task teardown) against a FIFO/exactly-once/copy-at-write channel model",
    "Sixteen producer/consumer programs covering scalar and heap payloads and every timing relation between write, read, task end, mutation after write and collection are first run without collection and compared with the channel model, then explored exhaustively over all interleavings of mutator steps with collector steps of every thread (1/2 cycles per thread) in quarantine mode; no reachable object (including through queues) may be reclaimed and every maximal path must give the model's outcome.",
